@@ -227,21 +227,22 @@ Section Data.
   Lemma wsize_perm (h h' : list wcursor) : Permutation h h' -> wsize h = wsize h'.
   Proof. induction 1; simpl; lia. Qed.
 
-  Lemma merge_data pulls : forall heap (w : world) ys w1,
-    w_merge pulls heap w = ((ys, None), w1) -> Forall wcur_ok heap -> (wsize heap < pulls)%nat ->
-    Permutation (map enc ys) (concat (map wdata heap)) /\ Forall (fun y => dec (enc y) = Ok y) ys.
+  Lemma merge_data pulls : forall heap opn (w : world) ys st hs w1,
+    w_merge pulls heap opn w = ((ys, st, hs), w1) -> (forall e, st <> MRaised e) ->
+    Forall wcur_ok heap -> (wsize heap < pulls)%nat ->
+    Permutation (map enc ys) (concat (map wdata heap)) /\ Forall (fun y => dec (enc y) = Ok y) ys /\ st = MExhausted.
   Proof.
-    induction pulls as [| p IH]; intros heap w ys w1 H Hok Hsz; [lia |]. simpl in H.
-    destruct heap as [| c0 h0]. { inversion H; subst. simpl. split; constructor. }
+    induction pulls as [| p IH]; intros heap opn w ys st hs w1 H Hst Hok Hsz; [lia |]. simpl in H.
+    destruct heap as [| c0 h0]. { inversion H; subst. simpl. split; [constructor | split; [constructor | reflexivity]]. }
     remember (c0 :: h0) as heap eqn:Eh.
     assert (Hne : heap <> []) by (subst; discriminate).
     destruct (pick_ok wcursor (lt_wcursor A K D lt) heap (swo_pullback _ K lt (wkey A K D) lt_swo) Hne)
       as (c & rest & Hp & Hperm & _).
     assert (H' : match w_advance (wh A K D c) (wrest A K D c) w with
-                 | (Raise e, w1) => (([], Some e), w1)
-                 | (Ok None, w1) => let '((ys, e), w2) := w_merge p rest w1 in ((wval A K D c :: ys, e), w2)
-                 | (Ok (Some c'), w1) => let '((ys, e), w2) := w_merge p (c' :: rest) w1 in ((wval A K D c :: ys, e), w2)
-                 end = ((ys, None), w1)).
+                 | (Raise e, w1) => (([], MRaised e, opn), w1)
+                 | (Ok None, w1) => let '((ys, st, hs), w2) := w_merge p rest (remove_nat (wh A K D c) opn) w1 in ((wval A K D c :: ys, st, hs), w2)
+                 | (Ok (Some c'), w1) => let '((ys, st, hs), w2) := w_merge p (c' :: rest) opn w1 in ((wval A K D c :: ys, st, hs), w2)
+                 end = ((ys, st, hs), w1)).
     { subst heap. simpl in Hp. rewrite Hp in H. exact H. }
     clear H.
     assert (Hokp : Forall wcur_ok (c :: rest)) by (eapply Permutation_Forall; [apply Permutation_sym; exact Hperm | exact Hok]).
@@ -251,20 +252,21 @@ Section Data.
     assert (Hdata : Permutation (concat (map wdata (c0 :: h0))) (wdata c ++ concat (map wdata rest))).
     { change (wdata c ++ concat (map wdata rest)) with (concat (map wdata (c :: rest))).
       apply Permutation_concat. apply Permutation_map. apply Permutation_sym. exact Hperm. }
-    destruct (w_advance (wh A K D c) (wrest A K D c) w) as [[oc | x] wa] eqn:Ea; [| inversion H'].
+    destruct (w_advance (wh A K D c) (wrest A K D c) w) as [[oc | x] wa] eqn:Ea.
+    2: { inversion H'; subst. exfalso. exact (Hst x eq_refl). }
     apply advance_data in Ea; [| exact Gr].
     destruct (wrest A K D c) as [| d r] eqn:Ecr.
-    - subst oc. destruct (w_merge p rest wa) as [[ys0 e0] wb] eqn:Em. inversion H'; subst.
-      destruct (IH _ _ _ _ Em Hrest ltac:(simpl in Hszp; lia)) as (Pm & Fd).
-      split; [| constructor; assumption]. simpl.
+    - subst oc. destruct (w_merge p rest (remove_nat (wh A K D c) opn) wa) as [[[ys0 st0] hs0] wb] eqn:Em. inversion H'; subst.
+      destruct (IH _ _ _ _ _ _ _ Em Hst Hrest ltac:(simpl in Hszp; lia)) as (Pm & Fd & Est).
+      split; [| split; [constructor; assumption | exact Est]]. simpl.
       eapply Permutation_trans; [| apply Permutation_sym; exact Hdata]. unfold wdata at 1. rewrite Ecr. simpl.
       constructor. exact Pm.
-    - destruct Ea as (c' & -> & Hd & Hok'). destruct (w_merge p (c' :: rest) wa) as [[ys0 e0] wb] eqn:Em. inversion H'; subst.
+    - destruct Ea as (c' & -> & Hd & Hok'). destruct (w_merge p (c' :: rest) opn wa) as [[[ys0 st0] hs0] wb] eqn:Em. inversion H'; subst.
       assert (Hsz' : (wsize (c' :: rest) < p)%nat).
       { simpl. assert (L : length (wdata c') = length (d :: r)) by (rewrite Hd; reflexivity).
         unfold wdata in L. simpl in L. simpl in Hszp. lia. }
-      destruct (IH _ _ _ _ Em (Forall_cons _ Hok' Hrest) Hsz') as (Pm & Fd).
-      split; [| constructor; assumption]. simpl.
+      destruct (IH _ _ _ _ _ _ _ Em Hst (Forall_cons _ Hok' Hrest) Hsz') as (Pm & Fd & Est).
+      split; [| split; [constructor; assumption | exact Est]]. simpl.
       eapply Permutation_trans; [| apply Permutation_sym; exact Hdata]. unfold wdata at 1. rewrite Ecr. simpl.
       constructor. eapply Permutation_trans; [exact Pm |].
       change (concat (map wdata (c' :: rest))) with (wdata c' ++ concat (map wdata rest)). rewrite Hd. apply Permutation_refl.
@@ -402,25 +404,41 @@ Section Data.
     - inversion H; subst. split; [exact D1 | reflexivity].
   Qed.
 
-  Lemma merge_files pulls : forall heap (w : world) r w1, w_merge pulls heap w = (r, w1) -> files D w1 = files D w.
+  Lemma merge_files pulls : forall heap opn (w : world) r w1, w_merge pulls heap opn w = (r, w1) -> files D w1 = files D w.
   Proof.
-    induction pulls as [| p IH]; intros heap w r w1 H; simpl in H.
+    induction pulls as [| p IH]; intros heap opn w r w1 H; simpl in H.
     - inversion H; subst. reflexivity.
     - destruct heap as [| c0 h0]; [inversion H; subst; reflexivity |].
       destruct (pick_min _ _ (c0 :: h0)) as [[c rest] |]; [| inversion H; subst; reflexivity].
       destruct (w_advance (wh A K D c) (wrest A K D c) w) as [[[c' |] | x] wa] eqn:Ea;
         pose proof (advance_files _ _ _ _ _ Ea) as Fa.
-      + destruct (w_merge p (c' :: rest) wa) as [[ys0 e0] wb] eqn:Em. inversion H; subst.
-        rewrite (IH _ _ _ _ Em). exact Fa.
-      + destruct (w_merge p rest wa) as [[ys0 e0] wb] eqn:Em. inversion H; subst.
-        rewrite (IH _ _ _ _ Em). exact Fa.
+      + destruct (w_merge p (c' :: rest) opn wa) as [[[ys0 st0] hs0] wb] eqn:Em. inversion H; subst.
+        rewrite (IH _ _ _ _ _ Em). exact Fa.
+      + destruct (w_merge p rest (remove_nat (wh A K D c) opn) wa) as [[[ys0 st0] hs0] wb] eqn:Em. inversion H; subst.
+        rewrite (IH _ _ _ _ _ Em). exact Fa.
       + inversion H; subst. exact Fa.
+  Qed.
+
+  Lemma mclose_files hs : forall (w : world) err err' w1, w_mclose D hs w err = (err', w1) -> files D w1 = files D w.
+  Proof.
+    induction hs as [| h r IH]; intros w err err' w1 H; simpl in H; [inversion H; reflexivity |].
+    destruct (w_close_r D h w) as [[u | e] wa] eqn:E; apply close_r_files in E; apply IH in H; congruence.
+  Qed.
+
+  (* the finally clause of the iteration touches no file and never swallows the pending exception *)
+  Lemma finally_data (s : wsorter) ys e hs (w : world) ys' e' s' w' :
+    w_finally A K D s ys e hs w = ((ys', e'), s', w') ->
+    ys' = ys /\ s' = s /\ files D w' = files D w /\ (nx w <= nx w')%nat /\ (e' = None -> e = None).
+  Proof.
+    unfold SorterWorld.w_finally. destruct (w_mclose D hs w None) as [eo w1] eqn:E.
+    pose proof (mclose_files _ _ _ _ _ E) as Fl. apply mclose_f in E. destruct E as (N & _).
+    destruct eo; intros H; inversion H; subst; repeat split; auto; discriminate.
   Qed.
 
   (* a complete iteration that ends normally returns everything the sorter holds *)
   Lemma iter_all (s : wsorter) (w : world) ds ys s' w' :
     WI2 s w -> DI s w ds -> walways K D s = true ->
-    w_iter s (S (total_items K D s w)) w = ((ys, None), s', w') ->
+    w_iter s (S (total_items K D s w)) false w = ((ys, None), s', w') ->
     Permutation (map enc ys) ds /\ Forall (fun y => dec (enc y) = Ok y) ys /\ DI s' w' ds.
   Proof.
     intros I2 DIs Hal H. unfold SorterWorld.w_iter in H. rewrite Hal, Bool.orb_true_r in H.
@@ -434,22 +452,24 @@ Section Data.
     destruct (w_cursors (wpaths s1) w1) as [[heap | x] w2] eqn:E2; [| inversion H].
     pose proof (cursors_f A K D keyf dec eof _ _ _ _ E2) as (N2 & _).
     destruct (cursors_data _ _ _ _ _ E2 Rg Gcs) as (Md & Hok & Fl2).
-    destruct (w_merge (S (total_items K D s w)) heap w2) as [[ys3 e3] w3] eqn:E3.
-    pose proof (merge_f A K D keyf lt dec pick_min eof _ _ _ _ _ _ E3) as (N3 & _).
-    pose proof (merge_quiet A K D keyf lt dec pick_min eof _ _ _ _ _ E3) as (I3 & _).
-    assert (Hy : ys3 = ys /\ e3 = None /\ s1 = s' /\ drop_iter D w3 = w') by (inversion H; auto).
-    destruct Hy as (<- & -> & <- & <-). clear H.
+    destruct (w_merge (S (total_items K D s w)) heap (map (wh A K D) heap) w2) as [[[ys3 st] hs] w3] eqn:E3.
+    pose proof (merge_f A K D keyf lt dec pick_min eof _ _ _ _ _ _ _ _ E3) as (N3 & _).
+    pose proof (merge_files _ _ _ _ _ _ E3) as Fl3.
     assert (Sz : (wsize heap < S (total_items K D s w))%nat).
     { rewrite wsize_data, Md. pose proof (regs_total _ _ _ Nd Rg) as X.
       unfold total_items. change (fold_right (fun p n => (length (snd p) + n)%nat) 0%nat (files D w)) with (ftotal (files D w)).
       lia. }
-    destruct (merge_data _ _ _ _ _ E3 Hok Sz) as (Pm3 & Fd). split; [| split; [exact Fd |]].
+    assert (HF : exists e0, w_finally A K D s1 ys3 e0 hs w3 = ((ys, None), s', w') /\ (forall e, st <> MRaised e)).
+    { destruct st as [| | e0].
+      - exists None. split; [exact H | discriminate].
+      - exists None. split; [exact H | discriminate].
+      - exfalso. apply finally_data in H. destruct H as (_ & _ & _ & _ & X). specialize (X eq_refl). discriminate. }
+    destruct HF as (e0 & HF & Hst). apply finally_data in HF. destruct HF as (-> & -> & Fl4 & N4 & _).
+    destruct (merge_data _ _ _ _ _ _ _ _ E3 Hst Hok Sz) as (Pm3 & Fd & _). split; [| split; [exact Fd |]].
     - eapply Permutation_trans; [exact Pm3 |]. rewrite Md. rewrite Es1 in Pm. simpl in Pm. rewrite app_nil_r in Pm. exact Pm.
     - unfold DI. repeat split; try assumption.
-      + intros p Hp. apply Pn in Hp. simpl. lia.
-      + exists cs. split; [| exact Pm]. unfold regs, drop_iter in *. simpl.
-        assert (Fl3 : files D w3 = files D w1) by (rewrite (merge_files _ _ _ _ _ E3); exact Fl2).
-        rewrite Fl3. exact Rg.
+      + intros p Hp. apply Pn in Hp. lia.
+      + exists cs. split; [| exact Pm]. unfold regs in *. rewrite Fl4, Fl3, Fl2. exact Rg.
   Qed.
 
   (* ---------- failures that leave the data alone, or taint ---------- *)
@@ -492,8 +512,8 @@ Section Data.
   Qed.
 
   (* an iteration that ends with an exception leaves the data where it was, unless the sorter is tainted *)
-  Lemma iter_fail (s : wsorter) p (w : world) ds ys e s' w' :
-    WI2 s w -> DI s w ds -> walways K D s = true -> w_iter s p w = ((ys, Some e), s', w') ->
+  Lemma iter_fail (s : wsorter) p keep (w : world) ds ys e s' w' :
+    WI2 s w -> DI s w ds -> walways K D s = true -> w_iter s p keep w = ((ys, Some e), s', w') ->
     tainted K D s' = true \/ (DI s' w' ds /\ walways K D s' = true).
   Proof.
     intros I2 DIs Hal H. unfold SorterWorld.w_iter in H. destruct p as [| p]; [inversion H |].
@@ -502,14 +522,17 @@ Section Data.
     - inversion H; subst. destruct (spill_fail _ _ _ _ _ E1) as [T | (-> & Fl & N)]; [left; exact T | right].
       split; [eapply DI_frame; eauto | exact Hal].
     - destruct (spill_DI _ _ _ _ _ I2 DIs E1) as (D1 & _ & Eal & _). right.
-      assert (Fin : forall w2, files D w2 = files D w1 -> (nx w1 <= nx w2)%nat -> DI s1 (drop_iter D w2) ds /\ walways K D s1 = true).
+      assert (Fin : forall w2, files D w2 = files D w1 -> (nx w1 <= nx w2)%nat -> DI s1 w2 ds /\ walways K D s1 = true).
       { intros w2 Fl N. split; [| congruence]. eapply DI_frame; [exact D1 | exact Fl | exact N]. }
       destruct (w_cursors (wpaths s1) w1) as [[heap | x] w2] eqn:E2;
         pose proof (cursors_files _ _ _ _ E2) as Fl2; pose proof (cursors_f A K D keyf dec eof _ _ _ _ E2) as (N2 & _).
-      + destruct (w_merge (S p) heap w2) as [[ys3 e3] w3] eqn:E3.
-        pose proof (merge_files _ _ _ _ _ E3) as Fl3. pose proof (merge_f A K D keyf lt dec pick_min eof _ _ _ _ _ _ E3) as (N3 & _).
-        inversion H; subst. apply Fin; [congruence | lia].
-      + inversion H; subst. apply Fin; assumption.
+      2: { inversion H; subst. apply Fin; [exact Fl2 | exact N2]. }
+      destruct (w_merge (S p) heap (map (wh A K D) heap) w2) as [[[ys3 st] hs] w3] eqn:E3.
+      pose proof (merge_files _ _ _ _ _ _ E3) as Fl3. pose proof (merge_f A K D keyf lt dec pick_min eof _ _ _ _ _ _ _ _ E3) as (N3 & _).
+      assert (FinF : forall e0, w_finally A K D s1 ys3 e0 hs w3 = ((ys, Some e), s', w') -> DI s' w' ds /\ walways K D s' = true).
+      { intros e0 HF. apply finally_data in HF. destruct HF as (_ & -> & Fl4 & N4 & _). apply Fin; [congruence | lia]. }
+      destruct st as [| | e0]; [eapply FinF; exact H | | eapply FinF; exact H].
+      destruct keep; [inversion H | eapply FinF; exact H].
   Qed.
 
   (* ---------- MafWriter ---------- *)
@@ -604,7 +627,7 @@ Section Data.
     intros (I2 & St) H. pose proof (wr_close_WI2 A K D keyf lt dec pick_min eof _ _ _ _ _ I2 H) as I2'.
     unfold SorterWorld.wr_close in H. destruct (tainted K D (wsr wr)) eqn:Ht.
     { inversion H; subst. split; [split; [exact I2 | left; exact Ht] | discriminate]. }
-    destruct (w_iter (wsr wr) (S (total_items K D (wsr wr) w)) w) as [[[ys e] s1] w1] eqn:E.
+    destruct (w_iter (wsr wr) (S (total_items K D (wsr wr) w)) false w) as [[[ys e] s1] w1] eqn:E.
     assert (Grow : incl (map enc W) (map enc (wout wr)) -> incl (map enc W) (map enc (wout wr ++ ys))).
     { intros Inc y Hy. rewrite map_app. apply in_or_app. left. apply Inc. exact Hy. }
     destruct St as [T | [Inc | (Hal & ds & DIs & Inc)]]; [congruence | |].
@@ -616,7 +639,7 @@ Section Data.
           [discriminate | intros _; simpl; apply Grow; exact Inc].
     - destruct e as [x |].
       + inversion H; subst. split; [| discriminate]. split; [exact I2' |]. simpl.
-        destruct (iter_fail _ _ _ _ _ _ _ _ I2 DIs Hal E) as [T | (D1 & Hal1)]; [left; exact T | right; right].
+        destruct (iter_fail _ _ _ _ _ _ _ _ _ I2 DIs Hal E) as [T | (D1 & Hal1)]; [left; exact T | right; right].
         split; [exact Hal1 |]. exists ds. split; assumption.
       + destruct (iter_all _ _ _ _ _ _ I2 DIs Hal E) as (Pm & _ & _).
         assert (All : incl (map enc W) (map enc (wout wr ++ ys))).
@@ -683,7 +706,7 @@ Section Data.
     destruct (adds_all_ok xs (wr_new A K D c) _ [] _ _ _ (WI2_new K D c true f) (DI_new c true f) eq_refl Ha Hok) as (I2 & DIs & Hal & Ho).
     simpl in DIs, Ho.
     unfold SorterWorld.wr_close in Hc. destruct DIs as (Ht & Rest). rewrite Ht in Hc.
-    destruct (w_iter (wsr wr) (S (total_items K D (wsr wr) w)) w) as [[[ys e] s1] w1] eqn:E.
+    destruct (w_iter (wsr wr) (S (total_items K D (wsr wr) w)) false w) as [[[ys e] s1] w1] eqn:E.
     destruct e as [x |]; [inversion Hc |].
     destruct (iter_all _ _ _ _ _ _ I2 (conj Ht Rest) Hal E) as (Pm & Fd & _).
     destruct (w_close s1 w1) as [[e2 s2] w2]. destruct e2; inversion Hc; subst. simpl. rewrite Ho. simpl.
